@@ -148,7 +148,10 @@ var c11Words = []string{"Organization", "CommonName", "Country", "Organizational
 	"e_ca_is_ca", "example.com", "US",
 	// values that occur in the objects built below: an option that names attribute VALUES (an allow-list, an exemption)
 	// only acts when the document holds a value the object has
-	"PKI", "Operations", "Ben &amp; Jerry", c11LongOU, "Verif Test CA Org", "Example Org", "www.example.com", "Verif Issuing CA R1"}
+	"PKI", "Operations", "Ben &amp; Jerry", c11LongOU, "Verif Test CA Org", "Example Org", "www.example.com", "Verif Issuing CA R1",
+	// country codes that are NOT assigned (user-assigned / exceptionally reserved code elements, an unassigned one):
+	// an option that widens or narrows what counts as a country only acts on an object that carries such a code
+	"XK", "ZZ", "AA", "QM", "EU", "UK", "YQ"}
 
 const c11LongOU = "Department of Redundancy Department, Division of Overly Long Organisational Unit Names"
 
@@ -361,6 +364,24 @@ func c11BuildObjs(c *mon.Ctx) {
 	ca := gen.SubCA(gen.D(2024, 3, 1))
 	ca.Subject = gen.Name(gen.A(gen.OIDC, "US"), gen.A(gen.OIDO, "Verif Test CA Org"), gen.A(gen.OIDOU, "PKI"), gen.A(gen.OIDCN, "Verif Issuing CA R1"))
 	addDER(corpus.Cert, "gen/cfg/ca-ou", ca.DER())
+	// subjects whose country is a user-assigned / exceptionally reserved / unassigned code element (subscriber, CA, S/MIME)
+	for k, cc := range []string{"XK", "ZZ", "AA", "QM", "EU", "UK", "YQ", "xk"} {
+		for t := 0; t < 3; t++ {
+			var sp *gen.Spec
+			switch t {
+			case 0:
+				sp = gen.TLSLeaf(gen.D(2024, 3, 1), "www.example.com")
+				sp.Subject = gen.Name(gen.A(gen.OIDC, cc), gen.A(gen.OIDO, "Example Org"), gen.A(gen.OIDCN, "www.example.com"))
+			case 1:
+				sp = gen.SubCA(gen.D(2024, 3, 1))
+				sp.Subject = gen.Name(gen.A(gen.OIDC, cc), gen.A(gen.OIDO, "Verif Test CA Org"), gen.A(gen.OIDCN, "Verif Issuing CA R1"))
+			default:
+				sp = gen.SMIMELeaf(gen.D(2024, 3, 1), "alice@example.com")
+				sp.Subject = gen.Name(gen.A(gen.OIDC, cc), gen.A(gen.OIDCN, "alice@example.com"), gen.A(gen.OIDEmail, "alice@example.com"))
+			}
+			addDER(corpus.Cert, fmt.Sprintf("gen/cfg/country%d-%d", k, t), sp.DER())
+		}
+	}
 	// several organisational units, one of them a value other lints object to (an HTML entity, more than 64 characters)
 	// in front of / behind a plain one, on a CA and on a subscriber certificate
 	for k, ous := range [][]string{{"Ben &amp; Jerry", "Operations"}, {"Operations", "Ben &amp; Jerry"}, {c11LongOU, "PKI"}, {"PKI", c11LongOU}, {"PKI", "Operations", "Ben &amp; Jerry"}} {
